@@ -103,3 +103,44 @@ Proof.
       apply (bcast_all_rank1 (ishapes index) [] B' (rank1_ishapes _ H1)); [simpl; lia|exact HB']. }
   destruct debug; [|exact G]. apply getitem_debug_irrelevant; assumption.
 Qed.
+
+(* on the NON-absorbed path the pinned and the repaired front end differ only through int -1 in a matrix position *)
+Theorem getitem_pinned_nonabsorbed_eq : forall debug t idx index,
+  spec_expand (length (tshape t)) idx = Some index ->
+  absorbed_idx (length (tshape t)) index = false ->
+  not_m1 (nth (length (tshape t) - 2) index full) = true ->
+  not_m1 (nth (length (tshape t) - 1) index full) = true ->
+  getitem_model Pinned debug t idx = getitem_model Fixed debug t idx.
+Proof.
+  intros debug t idx index Hexp Habs Hr Hc. unfold getitem_model.
+  destruct (length (tshape t) <? 2); [reflexivity|]. rewrite Hexp. cbv zeta.
+  unfold absorbed_idx in Habs. cbv zeta in Habs. rewrite Habs. cbn [negb andb variant_eqb].
+  set (row := nth (length (tshape t) - 2) index full) in *. set (col := nth (length (tshape t) - 1) index full) in *.
+  destruct row as [i|? ? ?|? ?]; destruct col as [j|? ? ?|? ?]; simpl in Hr, Hc;
+    try apply negb_true_iff in Hr; try apply negb_true_iff in Hc;
+    rewrite ?(int_as_slice_pinned_eq i Hr), ?(int_as_slice_pinned_eq j Hc); reflexivity.
+Qed.
+
+(* THE PINNED FRONT END, everything that is right about it: the code as it stands in the repository returns the torch
+   result for every index in the quantifier unless (a) a matrix index is the python int -1 on the non-absorbed path,
+   (b) a matrix index is a python int on the absorbed path, (c) the absorbed block has rank >= 2 and stays in place *)
+Definition pinned_ok (nd : nat) (index : list item) : Prop :=
+  let row := nth (nd - 2) index full in let col := nth (nd - 1) index full in
+  if absorbed_idx nd index
+  then is_int row = false /\ is_int col = false /\ (rank1_tensors index \/ is_moved_to_start index = true)
+  else not_m1 row = true /\ not_m1 col = true.
+
+Theorem getitem_pinned_partial : forall debug t idx index r,
+  2 <= length (tshape t) -> Forall (fun n => 0 < n) (tshape t) ->
+  spec_expand (length (tshape t)) idx = Some index ->
+  in_quantifier (length (tshape t)) index = true ->
+  pinned_ok (length (tshape t)) index ->
+  torch_index t idx = Some r ->
+  getitem_model Pinned debug t idx = Some r.
+Proof.
+  intros debug t idx index r Hnd Hpos Hexp Hq Hok Hspec. unfold pinned_ok in Hok. cbv zeta in Hok.
+  destruct (absorbed_idx (length (tshape t)) index) eqn:A.
+  - destruct Hok as (H1 & H2 & H3). eapply getitem_pinned_absorbed_partial; eassumption.
+  - destruct Hok as (H1 & H2). rewrite (getitem_pinned_nonabsorbed_eq debug t idx index Hexp A H1 H2).
+    eapply getitem_fixed_all; eassumption.
+Qed.
